@@ -20,7 +20,8 @@ PolicyVals == Tri \cup {"stricter"}
 Differs(v) == v \in {"diff", "stricter"}
 SevRows == [tech : {"sev"}, bpolicy : PolicyVals, bmeas : Tri, bsvn : {"unset", "le", "gt"},
             bid : BOOLEAN, bauth : BOOLEAN,
-            bundle : {"none", "id", "id_author", "three", "wrongtype", "wrongauthor", "garbage"},
+            \* "same_id_author": one certificate is both the ID key and the author key of the endorsement
+            bundle : {"none", "id", "id_author", "same_id_author", "three", "wrongtype", "wrongauthor", "garbage"},
             count : {"listed", "unlisted", "zero"}, ow : BOOLEAN, unspec : BOOLEAN]
 \* "pin_listed" / "pin_other": the base pins one MRTD (mr_td) -- an endorsed one / another -- and has no
 \* allow-list: the pin is a field the derivation does not own and survives it
@@ -45,8 +46,8 @@ Sev(r) ==
            policy |-> IF ~r.ow \/ r.bpolicy = "unset" THEN "endo" ELSE "base",
            meas |-> IF r.count = "listed" THEN "endo" ELSE "base",
            svn |-> "base",
-           idAdded |-> r.bundle \in {"id", "id_author"},
-           authAdded |-> r.bundle = "id_author"]
+           idAdded |-> r.bundle \in {"id", "id_author", "same_id_author"},
+           authAdded |-> r.bundle \in {"id_author", "same_id_author"}]
 
 Tdx(r) ==
   IF r.base \in {"list_same", "list_diff"} /\ ~r.ow THEN Err("conflict:any_mr_td")
